@@ -152,3 +152,9 @@ def collapse_vkey(vk):
 def collapse_rec_key(rk):
     t, i, attrs = rk
     return (t, i, frozenset((a, collapse_vkey(v)) for (a, v), _n in attrs))
+
+
+def setlike_key(rk):
+    """Record key with multiplicities dropped, values kept strict."""
+    t, i, attrs = rk
+    return (t, i, frozenset(a for a, _n in attrs))
